@@ -283,6 +283,9 @@ type pubScenario struct {
 	Drop    bool
 	Prefill int // queued rows q0.. (q0 oldest) stored before the requests
 	Reqs    []sreq
+
+	bound, shards int
+	sleep         bool
 }
 
 func (s pubScenario) dsl() string {
@@ -501,6 +504,14 @@ func (s pubScenario) scn(bound int, sleep bool, shards int) schedScn {
 }
 
 func pubScenarios(thorough bool) []schedScn {
+	var out []schedScn
+	for _, s := range pubScenarioSpecs(thorough) {
+		out = append(out, s.scn(s.bound, s.sleep, s.shards))
+	}
+	return out
+}
+
+func pubScenarioSpecs(thorough bool) []pubScenario {
 	type world struct {
 		name           string
 		depth, prefill int
@@ -526,7 +537,7 @@ func pubScenarios(thorough bool) []schedScn {
 		{"same+disjoint", [][]string{{"a", "b"}, {"a", "b"}, {"c", "d"}}, true, false},
 		{"three-disjoint", [][]string{{"a", "b"}, {"c", "d"}, {"e", "f"}}, true, false},
 	}
-	var out []schedScn
+	var out []pubScenario
 	for _, backend := range []string{"memory", "sqlite"} {
 		for _, w := range worlds {
 			for _, sh := range shapes {
@@ -561,7 +572,8 @@ func pubScenarios(thorough bool) []schedScn {
 							shards = 8
 						}
 					}
-					out = append(out, s.scn(bound, sleep, shards))
+					s.bound, s.sleep, s.shards = bound, sleep, shards
+					out = append(out, s)
 				}
 			}
 		}
@@ -728,6 +740,14 @@ func (s reloadScenario) scn() schedScn {
 }
 
 func reloadScenarios(thorough bool) []schedScn {
+	var out []schedScn
+	for _, s := range reloadScenarioSpecs() {
+		out = append(out, s.scn())
+	}
+	return out
+}
+
+func reloadScenarioSpecs() []reloadScenario {
 	route := func(path, attrs, pull string) string {
 		return fmt.Sprintf("%s {\n queue { backend memory }\n%s pull { path %s }\n}\n", path, attrs, pull)
 	}
@@ -764,7 +784,7 @@ func reloadScenarios(thorough bool) []schedScn {
 		{"cross:publish+max_body@scoped", m(" publish off\n max_body 8\n"), m(" max_body 4\n"), sreq{Scoped: true, Payload: 6}},
 		{"cross:publish.managed+max_body@scoped", m(" publish.managed off\n max_body 8\n"), m(" max_body 4\n"), sreq{Scoped: true, Payload: 6}},
 	}
-	var out []schedScn
+	var out []reloadScenario
 	for _, tg := range toggles {
 		for _, dir := range []string{"a->b", "b->a"} {
 			for _, warm := range []bool{false, true} {
@@ -782,7 +802,7 @@ func reloadScenarios(thorough bool) []schedScn {
 						s.Name += ":1-item"
 						s.Toggle += ":1-item"
 					}
-					out = append(out, s.scn())
+					out = append(out, s)
 				}
 			}
 		}
